@@ -145,7 +145,11 @@ Fixpoint scan_loop (fmt : list byte) (i fuel : nat) : res (list token) :=
     end
   end.
 
-Definition scan (fmt : list byte) : res (list token) := scan_loop fmt 0 (length fmt + 1).
+(* at most length fmt tokens of at least one byte, the final test of the NUL, and one more
+   iteration in which a malformed text whose last specification swallowed the NUL is left *)
+Definition loop_fuel (fmt : list byte) : nat := length fmt + 2.
+
+Definition scan (fmt : list byte) : res (list token) := scan_loop fmt 0 (loop_fuel fmt).
 
 (* ------------------------------------------------------------------------------------------ *)
 (* sinks *)
@@ -261,7 +265,7 @@ Fixpoint print_loop (fmt : list byte) (args : list V) (i : nat) (st : pstate) (f
 
 (* int print_to_with(var out, int pos, const char* fmt, var args) *)
 Definition print_to_from (st : pstate) (fmt : list byte) (args : list V) : outcome :=
-  print_loop fmt args 0 st (length fmt + 1).
+  print_loop fmt args 0 st (loop_fuel fmt).
 
 Definition print_to (k : sink) (pos : nat) (fmt : list byte) (args : list V) : outcome :=
   print_to_from (mkP k pos 0 []) fmt args.
